@@ -133,6 +133,19 @@ def expectedRows : List (List String × Caster) := [
   (["secrets", "*", "external"], .toBoolean),
   (["configs", "*", "external"], .toBoolean)]
 
+def isOctDigit (c : Char) : Bool := '0' ≤ c && c ≤ '7'
+
+/-- what yaml.v3 makes of the *plain literal* `0[0-7]+` (the YAML 1.1 octal spelling, still honoured by yaml.v3's
+    `resolve`: `strconv.ParseInt(s, 0, 64)`); tied to yaml.v3 by the `c08casters` correspondence -/
+def yamlLegacyOctal (s : String) : Option Int :=
+  match s.toList with
+  | '0' :: ds =>
+    if !ds.isEmpty && ds.all isOctDigit then
+      let n := ds.foldl (fun n c => 8 * n + digitVal c) 0
+      if n ≤ 9223372036854775807 then some (n : Int) else none
+    else none
+  | _ => none
+
 /-- the numeric kind a caster produces, as the decode-time cast sees the Go target kind -/
 inductive NumKind | int | float | bool
 deriving DecidableEq, Repr
